@@ -188,6 +188,16 @@ def _raiser(v):
     raise ValueError('predicate failed to evaluate')
 
 
+class _Untestable:
+    """what a predicate may return instead of a bool (as numpy arrays do): asking for its truth value raises"""
+    def __bool__(self):
+        raise ValueError('predicate failed to evaluate: the truth value of the result is ambiguous')
+
+
+def _untestable(v):
+    return _Untestable()
+
+
 def cond_to_py(c):
     from pane import annotations as A
     k = c[0]
@@ -205,7 +215,8 @@ def cond_to_py(c):
     if k == 'not':
         return ~cond_to_py(c[1])
     if k == 'raise':
-        return A.Condition(_raiser, c[1])
+        # two ways for a predicate to fail to evaluate: it raises, or its result cannot be tested for truth
+        return A.Condition(_untestable if c[1].startswith('truth') else _raiser, c[1])
     if k == 'const':
         b = c[2]
         return A.Condition((lambda v: True) if b else (lambda v: False), c[1])
